@@ -223,7 +223,8 @@ def finish_case(c, r=None):
         obs.append(["files", list(files_of(kids))])
         c["obs"] = obs
     if c["via"] == "cli" and r is not None and c["place"] == "plain" and c["cfg_kind"] == "yaml" and r.random() < 0.5 \
-            and not any(k[0] == "F" and k[1] == "src.py" for k in kids):
+            and not any(k[0] == "F" and k[1] == "src.py" for k in kids) and not any(d[-1] == ".git" for d in dirs_of(kids)):
+        # (without --project-root the root is auto-detected from the target: a generated nested .git directory would be taken for it)
         c["spelling"] = "rel"
     return c
 
@@ -453,20 +454,33 @@ def coq_case(case, impl) -> str:
     return f"judge collect_actual {cl(ab)} {coq_tree(case['kids'])} {coq_sources(case)} {coq.coq_list(obs)}"
 
 
-def judge(cases, impls, workdir: Path, per_shard=25):
+def judge(cases, impls, workdir: Path, per_shard=20):
+    """verdict bits per case (None where the evaluation of its shard failed); second result: error texts"""
     shards, index = [], []
     for s in range(0, len(cases), per_shard):
         chunk = list(range(s, min(len(cases), s + per_shard)))
         shards.append("\n".join(f"Eval vm_compute in ({coq_case(cases[j], impls[j])})." for j in chunk))
         index.append(chunk)
-    outs = coq.eval_shards(workdir, HEADER, shards)
-    verdicts = [None] * len(cases)
-    for chunk, out in zip(index, outs):
-        if len(out) != len(chunk):
-            raise RuntimeError(f"expected {len(chunk)} results, got {len(out)}")
-        for j, o in zip(chunk, out):
-            verdicts[j] = o
-    return verdicts
+    verdicts, errors = [None] * len(cases), []
+    group = 16      # shards evaluated together; a failing group is retried shard by shard so that one timeout does not void the run
+    for g in range(0, len(shards), group):
+        todo = list(range(g, min(len(shards), g + group)))
+        try:
+            outs = dict(zip(todo, coq.eval_shards(workdir / f"g{g}", HEADER, [shards[i] for i in todo], timeout=900)))
+        except RuntimeError:
+            outs = {}
+            for i in todo:
+                try:
+                    outs[i] = coq.eval_shards(workdir / f"g{g}r{i}", HEADER, [shards[i]], timeout=1800)[0]
+                except RuntimeError as e:
+                    errors.append(str(e)[:300])
+        for i, out in outs.items():
+            if len(out) != len(index[i]):
+                errors.append(f"shard {i}: expected {len(index[i])} results, got {len(out)}")
+                continue
+            for j, o in zip(index[i], out):
+                verdicts[j] = o
+    return verdicts, errors
 
 
 # ------------------------------------------------------------------ leaf level: primitives against CPython / the repo's functions
@@ -590,7 +604,7 @@ def run(tier: str, seed: int, replay: str | None = None) -> int:
             "src/linter_config/pattern_utils.py::", "src/cli/utils.py::separate_files_and_dirs")
     chk.fingerprint_changed = [k for k in chk.fingerprint_changed if k.startswith(mine)]
     scale = chk.budget_scale()
-    per_batch = 220 if tier == "quick" else 2200
+    per_batch = 180 if tier == "quick" else 1800
     max_depth = 4 if tier == "quick" else 6
     code_dirs, code_exts = code_tables()
     state = {"cands_all": None, "t_impl": 0.0, "t_coq": 0.0}
@@ -605,12 +619,9 @@ def run(tier: str, seed: int, replay: str | None = None) -> int:
         state["t_impl"] += time.time() - t0
         t0 = time.time()
         with scratch_dir("tv-c14-coq-") as wd:
-            try:
-                verdicts = judge(cases, impls, wd / "cases")
-            except RuntimeError as e:
-                if b == 0:
-                    chk.broken.append(f"Model:evaluation of the collection model failed ({str(e)[:400]})")
-                verdicts = [None] * len(cases)
+            verdicts, errs = judge(cases, impls, wd / "cases")
+            if errs and b == 0:
+                chk.broken.append(f"Model:evaluation of the collection model failed on {sum(v is None for v in verdicts)} of {len(cases)} cases ({errs[0][:300]})")
             if b == 0:
                 try:
                     nleaf, bad = leaf_checks(seed, 2400 if tier == "quick" else 24000, cases, wd / "leaf")
